@@ -4,7 +4,9 @@ import (
 	"crypto/sha1"
 	"encoding/json"
 	"fmt"
+	"github.com/openacid/slim/index"
 	"os"
+	"reflect"
 	"runtime"
 	"strings"
 	"sync"
@@ -334,4 +336,136 @@ func buildConcurrently(cases []*Case) []error {
 		})
 	}
 	return errs
+}
+
+// concurrentRound: one round of 8 concurrent independent builds.
+func concurrentRound(round int, s *Stats) error {
+	cases := concurrentBuildCases(round)
+	for _, e := range buildConcurrently(cases) {
+		if e != nil {
+			return e
+		}
+	}
+	s.doneHash(uint64(round), true)
+	s.calls(len(cases))
+	s.class("concurrent_independent_builds")
+	return nil
+}
+
+// concurrentArrays: 8 goroutines construct arrays of different kinds and sizes
+// at the same time (constructors and Init on a re-used instance); every array
+// must hold exactly its own elements afterwards.
+func concurrentArrays(round int, s *Stats) error {
+	kinds := []string{"U16", "U32", "U64", "I16", "I32", "I64", "Struct", "U32"}
+	n := len(kinds)
+	errs := make([]error, n)
+	var wg sync.WaitGroup
+	start := make(chan struct{})
+	for g := 0; g < n; g++ {
+		g := g
+		wg.Add(1)
+		go func() {
+			defer wg.Done()
+			r := sm64{uint64(round*977 + g*13 + 5)}
+			<-start
+			errs[g] = guard("array construction (one of several concurrent ones)", func() error {
+				for rep := 0; rep < 20; rep++ {
+					cnt := 1 + r.intn(700)
+					var idx []int32
+					var raws []uint64
+					at := int32(r.intn(130))
+					for i := 0; i < cnt; i++ {
+						idx = append(idx, at)
+						raws = append(raws, r.next())
+						at += 1 + int32(r.intn(1+g*3))
+					}
+					ta, e := buildArray(kinds[g], idx, raws)
+					if e != nil {
+						if _, ok := e.(*violation); ok {
+							return e
+						}
+						return viol("array-build", "New%s rejected ascending indexes while other arrays were being built: %v", kinds[g], e)
+					}
+					next := 0
+					for i := int32(0); i <= idx[len(idx)-1]; i++ { // within the bitmap span only
+						v, ok := ta.get(i)
+						if next < len(idx) && idx[next] == i {
+							if !ok || !reflect.DeepEqual(v, eltOf(kinds[g], raws[next])) {
+								return viol("array-content", "%s array built while other arrays were being built: Get(%d) = (%v,%v), want (%v,true)", kinds[g], i, v, ok, eltOf(kinds[g], raws[next]))
+							}
+							next++
+						} else if ok {
+							return viol("array-content", "%s array built while other arrays were being built: Get(%d) = (%v,true) for an absent index", kinds[g], i, v)
+						}
+					}
+				}
+				return nil
+			})
+		}()
+	}
+	close(start)
+	wg.Wait()
+	for _, e := range errs {
+		if e != nil {
+			return e
+		}
+	}
+	s.doneHash(uint64(round)|1<<40, true)
+	s.calls(n * 20)
+	s.class("concurrent_independent_array_constructions")
+	return nil
+}
+
+// concurrentIndexes: 6 goroutines build record indexes at the same time.
+func concurrentIndexes(round int, s *Stats) error {
+	n := 6
+	errs := make([]error, n)
+	var wg sync.WaitGroup
+	start := make(chan struct{})
+	for g := 0; g < n; g++ {
+		g := g
+		wg.Add(1)
+		go func() {
+			defer wg.Done()
+			r := sm64{uint64(round*31 + g*101 + 9)}
+			cnt := 300 + r.intn(2500)
+			set := map[string]struct{}{}
+			for len(set) < cnt {
+				set[fmt.Sprintf("g%d/%s/%04x", g, strings.Repeat("p", 1+g+r.intn(4)), r.intn(1<<16))] = struct{}{}
+			}
+			keys := sortedSet(set)
+			block := 1 + g%3*3
+			rd := &blockReader{blocks: map[int64][]record{}}
+			var items []index.OffsetIndexItem
+			for i, k := range keys {
+				off := int64(i/block) * 512
+				items = append(items, index.OffsetIndexItem{Key: k, Offset: off})
+				rd.blocks[off] = append(rd.blocks[off], record{k, fmt.Sprintf("rec-%d-%d", g, i)})
+			}
+			<-start
+			errs[g] = guard("NewSlimIndex (one of several concurrent ones)", func() error {
+				si, e := index.NewSlimIndex(items, rd)
+				if e != nil {
+					return viol("build", "NewSlimIndex rejected sorted records while other indexes were being built: %v", e)
+				}
+				for i, k := range keys {
+					if v, f := si.RangeGet(k); !f || v != fmt.Sprintf("rec-%d-%d", g, i) {
+						return viol("index-miss", "an index built while other indexes were being built: RangeGet(%s) = (%q,%v), want its own record", q(k), v, f)
+					}
+				}
+				return nil
+			})
+		}()
+	}
+	close(start)
+	wg.Wait()
+	for _, e := range errs {
+		if e != nil {
+			return e
+		}
+	}
+	s.doneHash(uint64(round)|1<<41, true)
+	s.calls(n)
+	s.class("concurrent_independent_index_builds")
+	return nil
 }
